@@ -41,26 +41,27 @@ type diskState struct {
 	roots  map[string]string
 	canary string
 
-	mu         sync.Mutex
-	stamp      int64            // base of the modification time counter (seconds)
-	stampNanos int64            // strictly increasing offset in nanoseconds
-	backNanos  int64            // strictly increasing offset below the base, for backdated files
-	userEdit   map[string]int64 // side:path -> sequence number of the last user edit
-	lastSnap   map[string]*core.Entry
-	scanStart  map[string]int64
-	transStart map[string]int64
-	gated      map[string]bool  // activities whose syscalls park at gates
-	freshAt    map[string]int64 // side -> sequence at which a returned snapshot equalled the disk (0: last one did not); under h.mu
-	transEnd   map[string]int64 // side -> sequence at which the last transition returned; under h.mu
-	canaryHash string
-	staging    string
-	midcycle   *midcycleEvent       // under mu
-	mounts     map[string]string    // side -> mount point of its own small tmpfs (a separate device), if any
-	raceLost   map[string]bool      // contents destroyed inside a transition's documented check-then-act window
-	values     map[string]userValue // sha1 (hex) of every content the user ever wrote -> where and when last
-	canaryMu   sync.Mutex
-	inotify    int              // inotify descriptor watching the canary tree (-1: none)
-	watches    map[int32]string // watch descriptor -> canary-relative directory
+	mu             sync.Mutex
+	stamp          int64            // base of the modification time counter (seconds)
+	stampNanos     int64            // strictly increasing offset in nanoseconds
+	backNanos      int64            // strictly increasing offset below the base, for backdated files
+	userEdit       map[string]int64 // side:path -> sequence number of the last user edit
+	lastSnap       map[string]*core.Entry
+	scanStart      map[string]int64
+	transStart     map[string]int64
+	gated          map[string]bool  // activities whose syscalls park at gates
+	freshAt        map[string]int64 // side -> sequence at which a returned snapshot equalled the disk (0: last one did not); under h.mu
+	transEnd       map[string]int64 // side -> sequence at which the last transition returned; under h.mu
+	canaryHash     string
+	staging        string
+	midcycle       *midcycleEvent            // under mu
+	mounts         map[string]string         // side -> mount point of its own small tmpfs (a separate device), if any
+	curTransitions map[string][]*core.Change // side -> the transitions of the Transition call in progress (under mu)
+	raceLost       map[string]bool           // contents destroyed inside a transition's documented check-then-act window
+	values         map[string]userValue      // sha1 (hex) of every content the user ever wrote -> where and when last
+	canaryMu       sync.Mutex
+	inotify        int              // inotify descriptor watching the canary tree (-1: none)
+	watches        map[int32]string // watch descriptor -> canary-relative directory
 }
 
 // userValue remembers where the simulated user last put a piece of content.
@@ -530,7 +531,29 @@ func (d *diskState) onDestroy(side, rel, op string) {
 		}
 	}
 	snap := d.lastSnap[side]
+	plan := d.curTransitions[side]
 	d.mu.Unlock()
+	// A planned creation (nothing recorded at that path) never replaces
+	// anything: it is placed with a rename that fails if the name exists, so
+	// there is no check-then-act window to excuse - unless the filesystem
+	// lacks that primitive and mutagen falls back to probing first, which its
+	// source documents as racy.
+	creation := false
+	for _, t := range plan {
+		if pathWithin(rel, t.Path) {
+			sub := strings.TrimPrefix(strings.TrimPrefix(rel, t.Path), "/")
+			creation = lookup(t.Old, sub) == nil
+			break
+		}
+	}
+	if creation && h.plan.C("no_renameat2") != 1 && lastEdit > tstart && tstart > 0 && !unsyncKind(cur.Kind) && cur.Kind != core.EntryKind_Directory {
+		h.s.Count("probe.creation_collision_destroyed", 1)
+		h.s.Violate("C08", "creation-replaced-content", op, "%s at %q on %s is a planned creation (the scan recorded nothing there) and it replaces %s, which appeared after the scan", op, rel, side, render(cur))
+		if h.mode == core.SynchronizationMode_SynchronizationModeTwoWaySafe {
+			h.s.Violate("C01", "creation-replaced-content", "syscall:"+side, "two-way-safe: the creation planned at %q on %s replaces %s, content that was never synchronized (it appeared after the scan), without any conflict", rel, side, render(cur))
+		}
+		return
+	}
 	if lastEdit > tstart && tstart > 0 {
 		// The user touched this path after the transition began: mutagen's
 		// check-then-act window is documented as unavoidable.
@@ -1267,6 +1290,10 @@ func (e *diskEndpoint) Transition(ctx context.Context, transitions []*core.Chang
 	h.onTransition(e.side, transitions)
 	d.mu.Lock()
 	d.transStart[e.side] = invoked
+	if d.curTransitions == nil {
+		d.curTransitions = map[string][]*core.Change{}
+	}
+	d.curTransitions[e.side] = transitions
 	d.mu.Unlock()
 	var execBefore *core.Entry
 	if h.preserve[e.side] && !h.preserve[other(e.side)] {
